@@ -237,7 +237,7 @@ fn run_set<S: PS>(ctx: &Ctx) -> Acc {
             acc.count("fresh_adversarial_searches", 1);
             check_witness::<S>(&mut acc, "adversarial-fresh", &w);
             // leave it where the checked stage (and a human) can pick it up
-            let dir = std::path::PathBuf::from("/verif/target/work");
+            let dir = work_dir(ctx);
             let _ = std::fs::create_dir_all(&dir);
             let _ = std::fs::write(dir.join(format!("adv-fresh-{}.json", S::SET)), serde_json::to_string_pretty(&w).unwrap());
         } else {
@@ -246,13 +246,18 @@ fn run_set<S: PS>(ctx: &Ctx) -> Acc {
     }
     if ctx.checked_build() {
         // fresh witnesses written by the release stage of this run
-        if let Ok(text) = std::fs::read_to_string(format!("/verif/target/work/adv-fresh-{}.json", S::SET)) {
+        if let Ok(text) = std::fs::read_to_string(work_dir(ctx).join(format!("adv-fresh-{}.json", S::SET))) {
             if let Ok(w) = serde_json::from_str::<Value>(&text) {
                 check_witness::<S>(&mut acc, "adversarial-fresh", &w);
             }
         }
     }
     acc
+}
+
+/// <verif root>/target/work (the verif root is the parent of the fixtures directory)
+fn work_dir(ctx: &Ctx) -> std::path::PathBuf {
+    ctx.fixtures.parent().map_or_else(|| std::path::PathBuf::from("/verif"), |p| p.to_path_buf()).join("target").join("work")
 }
 
 /// Search rho's matrix for an overflowing row; returns a fixture-format JSON value.
